@@ -94,6 +94,11 @@ def gen_case(rng, k, exact=None, supplied=None, nb_points="?", x_axis=None):
         if rng.random() < 0.7:   # thresholds of the same unsigned kind: taken from the scores
             case["thresholds"] = [enc(rng.choice(pos + neg)) for _ in case["thresholds"]]
     case["thr_dtype"] = pick_dtype(rng, [F(x) for x in case["thresholds"]]) if case["thresholds"] else "float64"
+    if case["thresholds"] and rng.random() < 0.15:
+        # +-inf are legal thresholds (the corner points of the curve); oracle only, the model's thresholds are finite
+        case["thresholds"] = case["thresholds"] + rng.choice([["inf"], ["-inf"], ["-inf", "inf"]])
+        rng.shuffle(case["thresholds"])
+        case["thr_dtype"] = "float64"
     case["nb_points"] = rng.choice([None, 2, 3, 10, 10, 100, 0, 1, 7]) if nb_points == "?" else nb_points
     case["x_axis"] = x_axis or (AXES[k % 8] if rng.random() < 0.93 else "ppv")
     return case
@@ -185,6 +190,8 @@ def model_call(case):
 
 def coq_term(case, res):
     if not case.get("exact"):
+        return None
+    if any(t in ("inf", "-inf") for t in (case["thresholds"] or [])):
         return None
     if "ok" not in res:
         if res.get("err") == "ValueError":
